@@ -140,6 +140,34 @@ pub fn check_batch(piece: Piece, from: Square, to: u64, all_queries: bool, sink:
                             break;
                         }
                     }
+                    // ... and must leave the iterator in the state that many next() calls leave it in
+                    for n in [0usize, 1, 2, 3, 4, 5, rest.len().saturating_sub(2)] {
+                        if n >= rest.len() {
+                            continue;
+                        }
+                        let mut f = base.fresh();
+                        let _ = f.nth(n);
+                        let after = &rest[n + 1..];
+                        if f.len() != after.len() || f.size_hint() != (after.len(), Some(after.len())) {
+                            problems.push(("consumers", format!("after {} next() and nth({}): len() = {}, size_hint = {:?}, really remaining {}", k, n, f.len(), f.size_hint(), after.len())));
+                            break;
+                        }
+                        let tail: Vec<(u8, u8, u8)> = f.map(|m| key(&m)).collect();
+                        if tail != after {
+                            problems.push(("consumers", format!("after {} next() and nth({}): the rest of the iteration has {} moves, next() alone leaves {}", k, n, tail.len(), after.len())));
+                            break;
+                        }
+                    }
+                    for st in [1usize, 2, 3, 5] {
+                        let got: Vec<(u8, u8, u8)> = base.fresh().step_by(st).map(|m| key(&m)).collect();
+                        let want_s: Vec<(u8, u8, u8)> = rest.iter().copied().step_by(st).collect();
+                        let got2: Vec<(u8, u8, u8)> = base.fresh().skip(st).map(|m| key(&m)).collect();
+                        let want2: Vec<(u8, u8, u8)> = rest.iter().copied().skip(st).collect();
+                        if got != want_s || got2 != want2 {
+                            problems.push(("consumers", format!("after {} next(): step_by({}) / skip({}) disagree with next()", k, st, st)));
+                            break;
+                        }
+                    }
                 }
                 if it2.next().is_none() {
                     break;
